@@ -67,7 +67,8 @@ def exec_job(job):
         else:
             res = cisco_acl.addrgroups(job["text"], platform=job["plat"])
             for g in res:
-                e["got"].append(dict(name=g.name, members=[lex.wild_of_text(m.wildcard) for m in g.items]))
+                e["got"].append(dict(name=g.name, members=[dict(w=lex.wild_of_text(m.wildcard) if not m.addrgroup else ZWILD, ref=m.addrgroup or "")
+                                                           for m in g.items]))
     except Exception as ex:  # noqa
         e["exc"] = core.exc_name(ex)
     return [e]
@@ -98,9 +99,15 @@ def acl_section(rng, plat, name, gnames):
     return dict(hs=hs, body=lines)
 
 
-def group_section(rng, plat, name):
+ZWILD = dict(base=lex.Z32, mask=lex.Z32)
+
+
+def group_section(rng, plat, name, others=()):
     hs = (f"object-group ip address {name}" if plat == "nxos" else f"object-group network {name}")
-    return dict(hs=hs, body=member_lines(rng, plat, rng.randint(1, 4)))
+    body = member_lines(rng, plat, rng.randint(1, 4))
+    if plat == "ios" and rng.random() < 0.35:     # nested groups (IOS): defined, undefined, itself
+        body.insert(rng.randint(0, len(body)), "group-object " + rng.choice(list(others) + [name, "NOPE"]))
+    return dict(hs=hs, body=body)
 
 
 def intf_section(rng, name, acl_names):
@@ -122,7 +129,7 @@ def random_config(rng, plat):
     secs = [acl_section(rng, plat, n, gnames) for n in acl_names]
     defined = [g for g in gnames if rng.random() < 0.8]
     for g in defined:
-        secs.append(group_section(rng, plat, g))
+        secs.append(group_section(rng, plat, g, [x for x in defined if x != g]))
     for k in range(rng.randint(0, 4)):
         secs.append(intf_section(rng, rng.choice(["Ethernet1/%d", "GigabitEthernet0/%d", "Vlan%d"]) % (k + 1), acl_names + ["OTHER"]))
     for _ in range(rng.randint(0, 3)):
